@@ -695,7 +695,22 @@ def targeted_programs():
 
 # ----------------------------------------------------------------------------- shared run logic of checks C01 / C02
 
-FIXED = [
+# word operators next to operands whose FIRST and LAST characters are in different classes (a number ending in a dot,
+# an identifier ending in a combining mark / connector / non-ASCII digit): the space handlers look at one character
+EDGE_OPERANDS = ['1.', '0.', '5.e1', '.5', 'A\u0300', 'a\u203f', 'caf\u00e9', 'x\u0660', '$', '_', '$a', 'a$', '"s"', '/re/', '/re/g', '[1]',
+                 '(a)', '{}', 'this', '0x1F', 'e\u0301\u0301']
+EDGE_FORMS = ['typeof %s;', 'void %s;', 'delete %s;', 'x = typeof %s == y;', 'x = %s in y;', 'x = y in %s;', 'x = %s instanceof y;',
+              'x = y instanceof %s;', 'function f(){ return %s; }', 'throw %s;', 'x = new %s;', 'if (a) %s; else %s;',
+              'do %s; while (%s);', 'for (var k in %s);', 'x = a + %s - %s;', 'x = a + +%s - -%s;', 'var v = %s, w = %s;',
+              'switch (%s) { case %s: }', 'x = a ? %s : %s;', 'x = %s / 2 / %s;']
+EDGE = []
+for _f in EDGE_FORMS:
+    for _o in EDGE_OPERANDS:
+        if _o == '{}' and _f.startswith('%s'):
+            continue
+        EDGE.append(_f.replace('%s', _o))
+
+FIXED = EDGE + [
     '', ';', 'a;', 'a', '{}', '{a;b}', 'var a;', 'var a = 1, b;', 'x = (a, b);', 'x = a ? b : c;', 'if (a) b;', 'if (a) b; else c;',
     'if (a) {} else if (b) {} else {}', 'for (;;) ;', 'for (a; b; c) d;', 'for (var i = 0, j = 1; i < j; i++) {}', 'for (a in b) c;',
     'for (var a in b) c;', 'for (var a = 1 in b) c;', 'while (a) b;', 'while (a) ;', 'do a; while (b);', 'do {} while (b)', 'do ; while (0)',
